@@ -81,6 +81,7 @@ pub struct Ctx {
     pub digests: HashMap<[u8; 32], i64>, // canonical payload digest -> payload id
     pub embs: HashMap<Vec<u32>, i64>,    // embedding bits -> id
     pub last_count: usize,
+    pub ro_digest: Option<([u8; 32], u64, Option<std::time::SystemTime>)>, // file identity when the read-only handle was opened
 }
 
 /// "prefix-k" -> k; None -> 0; anything else -> -1
@@ -116,7 +117,7 @@ impl Ctx {
     pub fn new() -> Ctx {
         let dir = scratch_dir("core");
         let path = dir.path().join("m.mv2");
-        let mut c = Ctx { dir, path, mem: None, ro: false, digests: HashMap::new(), embs: HashMap::new(), last_count: 0 };
+        let mut c = Ctx { dir, path, mem: None, ro: false, digests: HashMap::new(), embs: HashMap::new(), last_count: 0, ro_digest: None };
         c.register_payload(0, b"");
         c
     }
@@ -175,6 +176,12 @@ impl Ctx {
         let flen = f.metadata().map(|m| m.len()).unwrap_or(0);
         json!({"present": true, "footer_offset": footer_offset, "wal_size": wal_size, "ckpt_pos": ckpt,
                "wal_seq": wal_seq, "chain": chain, "scan_err": scan_err, "file_len": flen})
+    }
+
+    fn file_identity(&self) -> Option<([u8; 32], u64, Option<std::time::SystemTime>)> {
+        let b = std::fs::read(&self.path).ok()?;
+        let md = std::fs::metadata(&self.path).ok()?;
+        Some((*blake3::hash(&b).as_bytes(), md.len(), md.modified().ok()))
     }
 
     fn dir_listing(&self) -> Vec<String> {
@@ -249,6 +256,10 @@ impl Ctx {
         let fv = self.file_view();
         let dir = self.dir_listing();
         let mut o = json!({"file": fv, "dir": dir, "open": self.mem.is_some(), "ro": self.ro});
+        if self.mem.is_some() && self.ro {
+            // C18: bytes, length and mtime of the file are what they were when the read-only handle was opened
+            o["ro_unchanged"] = json!(self.ro_digest.is_some() && self.ro_digest == self.file_identity());
+        }
         if self.mem.is_some() {
             let (count, nfid) = {
                 let m = self.mem.as_ref().unwrap();
@@ -420,6 +431,7 @@ pub fn exec(ctx: &mut Ctx, op: &Value) -> (Value, Value) {
                 Ok(Ok(m)) => {
                     ctx.mem = Some(m);
                     ctx.ro = ro;
+                    ctx.ro_digest = if ro { ctx.file_identity() } else { None };
                     res_ok(json!(null))
                 }
                 Ok(Err(e)) => res_err(&e),
@@ -641,6 +653,36 @@ pub fn exec(ctx: &mut Ctx, op: &Value) -> (Value, Value) {
                 Some(m) => guard(|| m.timeline(q), |es| {
                     json!(es.iter().map(|e| json!([e.frame_id, e.timestamp])).collect::<Vec<_>>())
                 }),
+            }
+        }
+        "vecset" => {
+            // C14: which frames does vector search find at distance 0 for every embedding used so far?
+            let mut embs: Vec<(i64, Vec<f32>)> = ctx.embs.iter().map(|(k, v)| (*v, k.iter().map(|b| f32::from_bits(*b)).collect())).collect();
+            embs.sort_by_key(|e| e.0);
+            match ctx.mem.as_mut() {
+                None => json!({"ok": false, "err": "NoHandle"}),
+                Some(m) => {
+                    let mut out = Vec::new();
+                    let mut err = None;
+                    for (id, v) in &embs {
+                        match catch_unwind(AssertUnwindSafe(|| m.search_vec(v, 10_000))) {
+                            Ok(Ok(hits)) => {
+                                let mut fs: Vec<u64> = hits.iter().filter(|h| h.distance == 0.0).map(|h| h.frame_id).collect();
+                                fs.sort_unstable();
+                                out.push(json!({"emb": id, "frames": fs, "n": hits.len()}));
+                            }
+                            Ok(Err(e)) => {
+                                err = Some(res_err(&e));
+                                break;
+                            }
+                            Err(p) => {
+                                err = Some(res_panic(p));
+                                break;
+                            }
+                        }
+                    }
+                    err.unwrap_or_else(|| res_ok(json!(out)))
+                }
             }
         }
         "by_uri" => {
